@@ -41,7 +41,8 @@ class G:
     """Generator with a light size-only picture of the handles (never used as an oracle):
     it only serves to aim counts and offsets at the boundaries of the valid range."""
 
-    def __init__(self, r, allow_f05=False, p_invalid=0.3):
+    def __init__(self, r, allow_f05=False, p_invalid=0.3, zero_dtype=False):
+        self.zero_dtype = zero_dtype
         self.r = r
         self.h = [None] * NVARS          # None or dict(size, esz, mid, buf, off)
         self.nmid = 0
@@ -71,7 +72,7 @@ class G:
 
     def length(self, i):
         h = self.h[i]
-        return h["size"] // h["esz"] if h else 0
+        return h["size"] // h["esz"] if (h and h["esz"]) else 0
 
     def new(self, v, size, esz, buf=None, off=0):
         if buf is None:
@@ -161,7 +162,7 @@ class G:
         if self.invalid():
             ok = False
             k = r.random()
-            own = (h["off"] // h["esz"]) if h else 0          # how far this view is from the start of its buffer
+            own = (h["off"] // max(1, h["esz"])) if h else 0          # how far this view is from the start of its buffer
             if k < 0.35:                                      # negative offset, incl. one that stays inside the buffer (F04)
                 off = -r.choice([1, max(1, own), max(1, own // 2), max(1, own + 1)])
                 if cnt != -1 and r.random() < 0.5:
@@ -190,10 +191,12 @@ class G:
         if s is None:
             return self.op_malloc()
         d, e = self.var(), self.r.choice(ESZ)
+        if self.zero_dtype and self.r.random() < 0.15:
+            e = 0                                             # occa::dtype::void_ (F38)
         self.ops.append("cast %d %d %d" % (d, s, e))
         h = self.h[s]
         if h:
-            self.new(d, (h["size"] // h["esz"]) * h["esz"], e, buf=h["buf"], off=h["off"])
+            self.new(d, self.length(s) * h["esz"], e, buf=h["buf"], off=h["off"])
 
     def op_setdt(self):
         v = self.pick_init(True)
@@ -300,9 +303,9 @@ class G:
         frm = r.random() < 0.5
         self_ = d if frm else s
         hd, hs = self.h[d], self.h[s]
-        ed = hd["esz"] if hd else 1
-        es = hs["esz"] if hs else 1
-        eself = (self.h[self_] or {"esz": 1})["esz"]
+        ed = max(1, hd["esz"]) if hd else 1                   # (max: the zero-byte dtype void)
+        es = max(1, hs["esz"]) if hs else 1
+        eself = max(1, (self.h[self_] or {"esz": 1})["esz"])
         dsize = hd["size"] if hd else 0
         ssize = hs["size"] if hs else 0
         # byte-exact valid ranges: offsets are in elements of each side's own dtype, the count in the receiver's
@@ -380,8 +383,8 @@ class G:
         return self.ops
 
 
-def gen_history(r, allow_f05=False):
-    return G(r, allow_f05=allow_f05, p_invalid=r.choice([0.15, 0.3, 0.3, 0.45])).history(r.randint(6, 40))
+def gen_history(r, allow_f05=False, zero_dtype=False):
+    return G(r, allow_f05=allow_f05, p_invalid=r.choice([0.15, 0.3, 0.3, 0.45]), zero_dtype=zero_dtype).history(r.randint(6, 40))
 
 
 D16 = "000102030405060708090a0b0c0d0e0f"
@@ -400,6 +403,10 @@ CORPUS = [
     # F36 / F37: clone of a view shorter than one element / of an empty view
     ["mallocd 0 8 1 0001020304050607", "cast 1 0 12", "clone 2 1", "cast 3 2 1", "cth 3 8 8 0", "mallocm 4 2 4 1", "cth 4 8 2 0"],
     ["mallocd 0 8 1 0001020304050607", "slice 1 0 8 0", "clone 2 1", "slice 3 0 3 0", "clone 4 3", "wrap 5 0 0 4", "clone 5 5"],
+    # F38: a dtype of zero bytes (void): length() divided by zero
+    ["mallocd 0 8 1 0001020304050607", "cast 1 0 0", "info 1", "cth 1 0 -1 0", "slice 2 1 0 -1", "plus 2 1 0", "cast 3 1 4", "cfh 1 -1 0 -",
+     "cmm 1 0 -1 0 0", "clone 4 1", "malloc 5 3 0", "cth 5 0 -1 0", "mallocm 5 2 0 0", "setdt 0 0", "cth 0 0 -1 0", "cth 0 0 2 1", "setdt 0 2",
+     "cth 0 8 -1 0"],
     # slices of slices with casts: element sizes that do not divide
     ["mallocd 0 16 1 " + D16, "cast 1 0 12", "cth 1 12 1 0", "cth 1 12 -1 0", "cth 1 24 2 0", "slice 2 1 1 0", "cast 3 1 4",
      "cth 3 12 -1 0", "setdt 0 4", "slice 4 0 1 2", "cfh 4 2 0 a0a1a2a3a4a5a6a7", "cth 0 16 -1 0"],
@@ -438,9 +445,9 @@ def main(argv):
         n = 1000 if ck.tier == "quick" else 30000
         hs = CORPUS + [gen_history(ck.rng) for _ in range(n)]
         ck.correspond(hb, db, hs, label="mem", ubsan_is_violation=ub, timeout=3000)
-        # the region of the known finding F05 (uninitialised receiver): same correspondence and oracles, with
-        # only the F05 message itself silenced
-        hs2 = [gen_history(ck.rng, allow_f05=True) for _ in range(n // 5)]
+        # the region of the known finding F05 (uninitialised receiver), plus casts to the zero-byte dtype void:
+        # same correspondence and oracles, with only the F05 message itself silenced
+        hs2 = [gen_history(ck.rng, allow_f05=True, zero_dtype=True) for _ in range(n // 5)]
         ck.correspond(hb, db, hs2, label="uninit", ubsan_is_violation=ub, env={"H_MEM_F05": "quiet"}, timeout=3000)
         allops = [o.split()[0] for h in hs + hs2 for o in h]
         for k in sorted(set(allops)):
